@@ -259,16 +259,17 @@ def run(ctx):
     # in-lists of many lengths (a backend may switch strategy above some size)
     lengths = ctx.pick([1, 2, 7, 64, 101, 150, 260, 1000, 2101],
                        [1, 2, 3, 7, 33, 64, 100, 101, 128, 150, 257, 500, 999, 1000, 1001, 2100, 2101, 5000])
+    jj = 0
     for j, n_items in enumerate(lengths):
-        if not ctx.mine(j):
-            continue
         for col, kind in (("a", "int"), ("s", "str"), ("g", "guid"), ("dd", "date")):
             lst = ("list", tuple(T.lit(kind, scalar.LITS[kind][0] if kind != "str" else "x")
                                  for _ in range(n_items)))
             t = ("bool", "or", ("cmp", "in", T.ident(col), lst), ("cmp", "eq", T.ident("b"), T.I(1)))
             for b in BACKENDS:
-                judge(ctx, t, "T", b, "in-list-%d" % n_items)
-            ctx.cls("in-list-length:%d" % n_items)
+                jj += 1
+                if ctx.mine(jj):        # spread (length, column, entry style) cells over the shards
+                    judge(ctx, t, "T", b, "in-list-%d" % n_items)
+                    ctx.cls("in-list-length:%d" % n_items)
     # predicates as OPERANDS of a comparison (either side, both sides), at the root and under
     # not: the shapes for which a backend may build helper expressions of its own
     s_, u_, a_, fl = T.ident("s"), T.ident("u"), T.ident("a"), T.ident("flag")
@@ -284,8 +285,9 @@ def run(ctx):
                 if not ctx.mine(k):
                     continue
                 t = ("cmp", op, l, r)
-                for wrap in (t, ("un", "not", t), ("bool", "and", t, ("cmp", "eq", T.ident("b"), T.I(1)))):
-                    for b in BACKENDS:
+                wraps = (t, ("un", "not", t)) if k % 3 else (t, ("bool", "and", t, ("cmp", "eq", T.ident("b"), T.I(1))))
+                for wrap in wraps:
+                    for b in ("django", "django-values", "sqla-orm-select", "sqla-core"):
                         judge(ctx, wrap, "T", b, "predicate-operands")
     ctx.cls("predicate-operands")
     n = ctx.pick(260, 5000)
